@@ -3,6 +3,7 @@
 mod chain;
 mod probe;
 mod sexp;
+mod subj;
 mod val;
 
 use sexp::Sexp;
@@ -19,6 +20,7 @@ fn run_case(case: &Sexp) -> String {
     "hotchain" => chain::local::run_hotchain(body),
     "chain_t" => chain::threads::run_chain(body),
     "hotchain_t" => chain::threads::run_hotchain(body),
+    "subject" => subj::run_subject(body),
     "op2" => chain::local::run_op2(body),
     "op2_t" => chain::threads::run_op2(body),
     k => panic!("unknown case kind {k}"),
